@@ -198,3 +198,24 @@ def pins_for(*trajs, n=2):
     for k in range(n):
         out.append([e for t in trajs for e in t.pin(k, only_quat=True)])
     return out
+
+
+QUADS = [(1, 1, 1, 1, 2), (1, 2, 2, 4, 5), (1, 1, 3, 5, 6), (1, 3, 3, 9, 10), (2, 4, 5, 6, 9),
+         (1, 4, 4, 4, 7), (3, 1, 1, 5, 6), (2, 3, 6, 0, 7), (4, 4, 7, 0, 9), (1, 2, 2, 0, 3)]
+
+
+def pin_quats(quats, n=3):
+    """pin sets fixing quaternion variables to rational unit quaternions"""
+    import random
+    out = []
+    for k in range(n):
+        rng = random.Random(k * 7919 + 13)
+        eqs = []
+        for q in quats:
+            c = list(QUADS[rng.randrange(len(QUADS))])
+            d = c.pop()
+            rng.shuffle(c)
+            c = [x * rng.choice((1, -1)) for x in c]
+            eqs += [v == sc.q_of(Fraction(x, d)) for v, x in zip(q, c)]
+        out.append(eqs)
+    return out
